@@ -212,6 +212,8 @@ func (p *peer) Dial(addr string, protoFunc ...ProtoFunc) (Session, *Status) {
 		sess.socket.SetID(sess.LocalAddr().String())
 		if stat := p.pluginContainer.postDial(sess, false); !stat.OK() {
 			conn.Close()
+			// a hook may have indexed the session already (SetID): a refused one must not stay listed
+			p.sessHub.deleteSession(sess)
 			return stat.Cause()
 		}
 		return nil
